@@ -1,2 +1,1006 @@
 (* C10 -- lemmas *)
 From V Require Import Common.NumFacts C10.Model.
+
+(* ------------------------------------------------------------------ keys *)
+Section KeyInd.
+  Variable P : key -> Prop.
+  Hypothesis HS : forall s, P (KStr s).
+  Hypothesis HE : P KEll.
+  Hypothesis HT : forall l, Forall P l -> P (KTup l).
+  Hypothesis HL : forall l, Forall P l -> P (KList l).
+  Hypothesis HO : forall n, P (KObj n).
+  Fixpoint key_ind' (k : key) : P k :=
+    match k with
+    | KStr s => HS s
+    | KEll => HE
+    | KTup l => HT l ((fix go (l : list key) : Forall P l :=
+                         match l with [] => Forall_nil _ | x :: r => Forall_cons _ (key_ind' x) (go r) end) l)
+    | KList l => HL l ((fix go (l : list key) : Forall P l :=
+                          match l with [] => Forall_nil _ | x :: r => Forall_cons _ (key_ind' x) (go r) end) l)
+    | KObj n => HO n
+    end.
+End KeyInd.
+
+Definition keys_eqb : list key -> list key -> bool :=
+  fix go (l m : list key) {struct l} : bool :=
+    match l, m with
+    | [], [] => true
+    | x :: l', y :: m' => key_eqb x y && go l' m'
+    | _, _ => false
+    end.
+
+Lemma keys_eqb_sound l : Forall (fun a => forall b, key_eqb a b = true -> a = b) l ->
+  forall m, keys_eqb l m = true -> l = m.
+Proof.
+  induction 1 as [|x l Hx Hl IH]; intros [|y m] E; simpl in E; try discriminate; auto.
+  apply andb_true_iff in E as [E1 E2]. f_equal; auto.
+Qed.
+
+Lemma key_eqb_eq : forall a b, key_eqb a b = true -> a = b.
+Proof.
+  induction a as [s| |l IH|l IH|n] using key_ind'; intros [t| |m|m|k] E; simpl in E; try discriminate; auto.
+  - apply String.eqb_eq in E. congruence.
+  - f_equal. apply (keys_eqb_sound l IH m E).
+  - f_equal. apply (keys_eqb_sound l IH m E).
+  - apply Nat.eqb_eq in E. congruence.
+Qed.
+
+Lemma kassoc_in {A} (c : list (key * A)) k v : kassoc c k = Some v -> In (k, v) c.
+Proof.
+  induction c as [|[k' v'] r IH]; simpl; intros H; try discriminate.
+  destruct (key_eqb k k') eqn:E.
+  - apply key_eqb_eq in E. inversion H; subst. auto.
+  - auto.
+Qed.
+
+(* ------------------------------------------------------------------ coherence of the caches *)
+Definition ccoh (t : table) (cc : ccache) : Prop :=
+  forall k v, In (k, v) cc -> hashable k = true /\ classify_h t k = Ok v.
+
+Definition mcoh (vr : variant) (t : table) (phs : list string) (mc : mcache) : Prop :=
+  forall k v, In (k, v) mc -> classify_mat_h vr t phs k = Ok v.
+
+Lemma ccoh_nil t : ccoh t []. Proof. intros k v []. Qed.
+Lemma mcoh_nil vr t phs : mcoh vr t phs []. Proof. intros k v []. Qed.
+
+Lemma evict100_incl {A} (c : list (key * A)) x : In x (evict100 c) -> In x c.
+Proof. unfold evict100. destruct (Nat.ltb 100 (length c)); auto. destruct c; simpl; auto. Qed.
+
+Lemma ccoh_evict t cc : ccoh t cc -> ccoh t (evict100 cc).
+Proof. intros H k v I. apply H. apply evict100_incl. exact I. Qed.
+
+Lemma ccoh_app t cc k v : ccoh t cc -> hashable k = true -> classify_h t k = Ok v -> ccoh t (cc ++ [(k, v)]).
+Proof.
+  intros H Hk Hv k' v' I. apply in_app_or in I as [I|[I|[]]]; [auto|]. inversion I; subst. auto.
+Qed.
+
+Lemma hashable_norm_classify t k : hashable (norm_key k) = true ->
+  classify_chem t k = classify_h t (norm_key k).
+Proof. intros H. unfold classify_chem. rewrite H. reflexivity. Qed.
+
+(* _get_index_and_kind returns classify_chem whatever the cache holds, and keeps the cache coherent *)
+Lemma chem_lookup_spec t cc k : ccoh t cc ->
+  ccoh t (fst (chem_lookup t cc k)) /\ snd (chem_lookup t cc k) = classify_chem t k.
+Proof.
+  intros H. unfold chem_lookup, classify_chem.
+  destruct (hashable (norm_key k)) eqn:Hh; simpl; [|auto].
+  destruct (kassoc cc (norm_key k)) as [v|] eqn:Ha; simpl.
+  - apply kassoc_in in Ha. destruct (H _ _ Ha) as [_ Hc]. auto.
+  - destruct (classify_h t (norm_key k)) as [v|e] eqn:Hc; simpl; [|auto].
+    split; [|reflexivity]. apply ccoh_evict. apply ccoh_app; auto.
+Qed.
+
+(* index_overlap versus indices *)
+Lemma overlap_loop_indices t cas li : overlap_loop t cas = Ok li ->
+  indices t (map KStr cas) = Ok (map Pos li) /\ existsb is_grp (map Pos li) = false.
+Proof.
+  revert li; induction cas as [|s r IH]; simpl; intros li H.
+  - inversion H; subst. simpl. auto.
+  - unfold tget in *. destruct (sassoc t s) as [[i|l]|] eqn:E; try discriminate.
+    destruct (overlap_loop t r) as [is|e] eqn:El; simpl in H; try discriminate.
+    inversion H; subst. destruct (IH is eq_refl) as [I1 I2]. rewrite I1. simpl. auto.
+Qed.
+
+Lemma indices_overlap_loop t cas ts : indices t (map KStr cas) = Ok ts ->
+  if existsb is_grp ts then overlap_loop t cas = Err ERuntime
+  else overlap_loop t cas = Ok (poss ts) /\ map Pos (poss ts) = ts.
+Proof.
+  revert ts; induction cas as [|s r IH]; simpl; intros ts H.
+  - inversion H; subst. simpl. auto.
+  - unfold tget in *. destruct (sassoc t s) as [x|] eqn:E; try discriminate.
+    destruct (indices t (map KStr r)) as [xs|e] eqn:Ei; simpl in H; try discriminate.
+    inversion H; subst. specialize (IH xs eq_refl). simpl.
+    destruct x as [i|l]; simpl.
+    + destruct (existsb is_grp xs).
+      * rewrite IH. reflexivity.
+      * destruct IH as [I1 I2]. rewrite I1. simpl. split; congruence.
+    + reflexivity.
+Qed.
+
+Lemma hashable_strs cas : forallb hashable (map KStr cas) = true.
+Proof. induction cas; simpl; auto. Qed.
+
+Lemma overlap_spec t cc cas : ccoh t cc ->
+  ccoh t (fst (overlap fixed t cc cas)) /\ snd (overlap fixed t cc cas) = overlap_pure t cas.
+Proof.
+  intros H. unfold overlap, overlap_pure.
+  destruct (kassoc cc (KTup (map KStr cas))) as [[idx kd]|] eqn:Ha.
+  - apply kassoc_in in Ha. destruct (H _ _ Ha) as [_ Hc]. simpl in Hc.
+    destruct (indices t (map KStr cas)) as [ts|e] eqn:Ei; simpl in Hc; try discriminate.
+    inversion Hc; subst. pose proof (indices_overlap_loop t cas ts Ei) as L.
+    unfold kind_of_many. destruct (existsb is_grp ts); simpl.
+    + rewrite L. simpl. auto.
+    + destruct L as [L1 L2]. rewrite L1. simpl. rewrite L2. auto.
+  - destruct (overlap_loop t cas) as [li|e] eqn:El; simpl; [|auto].
+    split; [|reflexivity]. apply ccoh_evict. destruct (overlap_loop_indices t cas li El) as [I1 I2].
+    apply ccoh_app; auto.
+    + simpl. apply hashable_strs.
+    + simpl. rewrite I1. simpl. unfold kind_of_many. rewrite I2. reflexivity.
+Qed.
+
+(* the phase part *)
+Lemma phase_part_spec vr t phs cc k : ccoh t cc ->
+  ccoh t (fst (phase_part vr t phs cc k)) /\ snd (phase_part vr t phs cc k) = phase_part_pure vr t phs k.
+Proof.
+  intros H. unfold phase_part_pure, phase_part.
+  destruct k as [s| |l|l|n]; simpl; auto.
+  - destruct (len1 s); simpl; auto.
+  - destruct l as [|p0 rest]; simpl; auto.
+    destruct (match p0 with
+              | KStr s => if len1 s then do p <- pcall phs s; Ok (Some p) else Err EKey
+              | KEll => Ok None
+              | _ => Err EIndex
+              end) as [pi|e]; simpl; auto.
+    destruct rest as [|ids [|x y]]; simpl; auto.
+    destruct (chem_lookup_spec t cc ids H) as [C1 C2].
+    destruct (chem_lookup_spec t [] ids (ccoh_nil t)) as [_ C3].
+    destruct (chem_lookup t cc ids) as [cc' r]. destruct (chem_lookup t [] ids) as [cc0 r0].
+    simpl in *. subst. auto.
+Qed.
+
+Lemma skipn_incl {A} n (l : list A) x : In x (skipn n l) -> In x l.
+Proof. revert l; induction n; intros [|a l]; simpl; auto. Qed.
+
+Lemma mcoh_app vr t phs mc k v : mcoh vr t phs mc -> classify_mat_h vr t phs k = Ok v -> mcoh vr t phs (mc ++ [(k, v)]).
+Proof.
+  intros H Hv k' v' I. apply in_app_or in I as [I|[I|[]]]; [auto|]. inversion I; subst. auto.
+Qed.
+
+Lemma hashable_norm k : hashable k = true -> norm_key k = k.
+Proof. destruct k; simpl; auto; discriminate. Qed.
+
+Lemma mat_lookup_h_spec t phs cc mc k : ccoh t cc -> mcoh fixed t phs mc ->
+  let r := mat_lookup_h fixed t phs cc mc k in
+  ccoh t (fst (fst r)) /\ mcoh fixed t phs (snd (fst r)) /\ snd r = classify_mat_h fixed t phs k.
+Proof.
+  intros Hc Hm. unfold mat_lookup_h.
+  destruct (kassoc mc k) as [v|] eqn:Ha; simpl.
+  - apply kassoc_in in Ha. rewrite (Hm _ _ Ha). auto.
+  - destruct (chem_lookup_spec t cc k Hc) as [C1 C2].
+    destruct (chem_lookup t cc k) as [cc1 r1]. simpl in C1, C2. subst r1.
+    unfold classify_mat_h.
+    assert (TR : forall (v : mval) (c' : ccache), ccoh t c' -> classify_mat_h fixed t phs k = Ok v ->
+              let r := (let mc' := mc ++ [(k, v)] in
+                        match trim fixed mc' with
+                        | Ok mc'' => (c', mc'', Ok v)
+                        | Err e => (c', mc', Err e)
+                        end) in
+              ccoh t (fst (fst r)) /\ mcoh fixed t phs (snd (fst r)) /\ snd r = Ok v).
+    { intros v c' Hc' Hv. unfold trim. change (fx_trim fixed) with true. cbv iota zeta.
+      destruct (Nat.ltb 500 (length (mc ++ [(k, v)]))); cbn [fst snd];
+        (split; [exact Hc'|split; [|reflexivity]]).
+      - intros k' v' I. apply skipn_incl in I. revert I. apply mcoh_app; auto.
+      - apply mcoh_app; auto. }
+    destruct (classify_chem t k) as [[ci kd]|e] eqn:Ec.
+    + apply TR; auto. unfold classify_mat_h. rewrite Ec. reflexivity.
+    + destruct e; simpl; auto.
+      destruct (phase_part_spec fixed t phs cc1 k C1) as [P1 P2].
+      destruct (phase_part fixed t phs cc1 k) as [cc2 r2]. simpl in P1, P2. subst r2.
+      destruct (phase_part_pure fixed t phs k) as [[mi kd]|e] eqn:Ep; simpl; auto.
+      apply TR; auto. unfold classify_mat_h. rewrite Ec, Ep. reflexivity.
+Qed.
+
+Lemma mat_lookup_spec t phs cc mc k : ccoh t cc -> mcoh fixed t phs mc ->
+  let r := mat_lookup fixed t phs cc mc k in
+  ccoh t (fst (fst r)) /\ mcoh fixed t phs (snd (fst r)) /\ snd r = classify_mat fixed t phs k.
+Proof.
+  intros Hc Hm. unfold mat_lookup, classify_mat.
+  destruct (mat_key k) as [k'|]; simpl; auto.
+  apply mat_lookup_h_spec; auto.
+Qed.
+
+(* ------------------------------------------------------------------ the per-phases table of caches *)
+Lemma str_list_eqb_eq a b : phs_eqb a b = true -> a = b.
+Proof.
+  unfold phs_eqb. revert b; induction a as [|x a IH]; intros [|y b] E; simpl in E; try discriminate; auto.
+  apply andb_true_iff in E as [E1 E2]. apply String.eqb_eq in E1. f_equal; auto.
+Qed.
+
+Lemma phs_eqb_refl a : phs_eqb a a = true.
+Proof. unfold phs_eqb. induction a as [|x a IH]; simpl; auto. rewrite String.eqb_refl. exact IH. Qed.
+
+Lemma mc_get_set m p c q : mc_get (mc_set m p c) q = if phs_eqb q p then c else mc_get m q.
+Proof.
+  induction m as [|[p0 c0] r IH]; simpl.
+  - reflexivity.
+  - destruct (phs_eqb p p0) eqn:E; simpl.
+    + apply str_list_eqb_eq in E. subst p0. destruct (phs_eqb q p); reflexivity.
+    + destruct (phs_eqb q p0) eqn:E0.
+      * destruct (phs_eqb q p) eqn:E1; auto.
+        apply str_list_eqb_eq in E0. apply str_list_eqb_eq in E1. subst. rewrite phs_eqb_refl in E. discriminate.
+      * apply IH.
+Qed.
+
+Definition coh (c : cfg) (s : state) : Prop :=
+  ccoh (tb c) (scc s) /\ forall phs, mcoh fixed (tb c) phs (mc_get (smc s) phs).
+
+Lemma coh_init c ixs : coh c (mkst [] [] ixs).
+Proof. split; [apply ccoh_nil|]. intros phs. simpl. apply mcoh_nil. Qed.
+
+Lemma coh_mc_set c cc m phs mc ixs :
+  ccoh (tb c) cc -> (forall q, mcoh fixed (tb c) q (mc_get m q)) -> mcoh fixed (tb c) phs mc ->
+  coh c (mkst cc (mc_set m phs mc) ixs).
+Proof.
+  intros H1 H2 H3. split; simpl; auto. intros q. rewrite mc_get_set.
+  destruct (phs_eqb q phs) eqn:E; auto. apply str_list_eqb_eq in E. subst. auto.
+Qed.
+
+Lemma step_coh c s o : coh c s -> coh c (fst (step fixed c s o)).
+Proof.
+  intros [Hc Hm]. destruct o as [i k|i k dt|cas|i cas vals|k]; simpl.
+  - destruct (nth_error (sixs s) i) as [[d|phs rows]|]; simpl.
+    + destruct (chem_lookup_spec (tb c) (scc s) k Hc) as [C1 _].
+      destruct (chem_lookup (tb c) (scc s) k) as [cc' r]. simpl in *. split; auto.
+    + destruct (mat_lookup_spec (tb c) phs (scc s) (mc_get (smc s) phs) k Hc (Hm phs)) as (M1 & M2 & _).
+      destruct (mat_lookup fixed (tb c) phs (scc s) (mc_get (smc s) phs) k) as [[cc' mc'] r]. simpl in *.
+      apply coh_mc_set; auto.
+    + split; auto.
+  - destruct (nth_error (sixs s) i) as [[d|phs rows]|]; simpl.
+    + destruct (chem_lookup_spec (tb c) (scc s) k Hc) as [C1 _].
+      destruct (chem_lookup (tb c) (scc s) k) as [cc' [[ci kd]|e]]; simpl in *.
+      * destruct (set_sparse (comps c) d ci kd dt k). simpl. split; auto.
+      * split; auto.
+    + destruct (mat_lookup_spec (tb c) phs (scc s) (mc_get (smc s) phs) k Hc (Hm phs)) as (M1 & M2 & _).
+      destruct (mat_lookup fixed (tb c) phs (scc s) (mc_get (smc s) phs) k) as [[cc' mc'] [v|e]]; simpl in *.
+      * destruct (mat_set (comps c) rows v dt k). simpl. apply coh_mc_set; auto.
+      * apply coh_mc_set; auto.
+    + split; auto.
+  - destruct (overlap_spec (tb c) (scc s) cas Hc) as [O1 _].
+    destruct (overlap fixed (tb c) (scc s) cas) as [cc' r]. simpl in *. split; auto.
+  - destruct (nth_error (sixs s) i) as [[d|phs rows]|]; simpl; try (split; auto; fail).
+    destruct (overlap_spec (tb c) (scc s) cas Hc) as [O1 _].
+    destruct (overlap fixed (tb c) (scc s) cas) as [cc' [[|x|ts]|e]]; simpl in *; try (split; auto; fail).
+    destruct (existsb is_grp ts); simpl; split; auto.
+  - split; auto.
+Qed.
+
+Lemma run_coh c ops : forall s, coh c s -> coh c (fst (run fixed c s ops)).
+Proof.
+  induction ops as [|o r IH]; intros s H; simpl; auto.
+  pose proof (step_coh c s o H) as H1. destruct (step fixed c s o) as [s' b]. simpl in H1.
+  specialize (IH s' H1). destruct (run fixed c s' r) as [s'' bs]. simpl in *. exact IH.
+Qed.
+
+(* the result of every kind of lookup after ANY history is the pure classification *)
+Lemma lookup_pure_lemma : forall c ixs hist k,
+  let s := fst (run fixed c (mkst [] [] ixs) hist) in
+  snd (chem_lookup (tb c) (scc s) k) = classify_chem (tb c) k
+  /\ (forall phs, snd (mat_lookup fixed (tb c) phs (scc s) (mc_get (smc s) phs) k) = classify_mat fixed (tb c) phs k)
+  /\ (forall cas, snd (overlap fixed (tb c) (scc s) cas) = overlap_pure (tb c) cas).
+Proof.
+  intros c ixs hist k s.
+  destruct (run_coh c hist _ (coh_init c ixs)) as [Hc Hm]. fold s in Hc, Hm.
+  split; [|split].
+  - apply chem_lookup_spec; auto.
+  - intros phs. apply mat_lookup_spec; auto.
+  - intros cas. apply overlap_spec; auto.
+Qed.
+
+(* the indexers of a history never change kind or shape position *)
+Definition obs_of_read (r : res val) : obs := match r with Ok v => BVal v | Err e => BErr e end.
+
+Lemma read_history_independent : forall c s i k, coh c s ->
+  snd (step fixed c s (OGet i k)) =
+  match nth_error (sixs s) i with
+  | Some (IC d) => obs_of_read (read_chem (tb c) d k)
+  | Some (IM phs rows) => obs_of_read (read_mat fixed (tb c) (nchem c) phs rows k)
+  | None => BErr EOther
+  end.
+Proof.
+  intros c s i k [Hc Hm]. simpl.
+  destruct (nth_error (sixs s) i) as [[d|phs rows]|]; simpl; auto.
+  - destruct (chem_lookup_spec (tb c) (scc s) k Hc) as [_ C2].
+    destruct (chem_lookup (tb c) (scc s) k) as [cc' r]. simpl in *. subst r.
+    unfold read_chem. destruct (classify_chem (tb c) k) as [[ci kd]|e]; simpl; auto.
+  - destruct (mat_lookup_spec (tb c) phs (scc s) (mc_get (smc s) phs) k Hc (Hm phs)) as (_ & _ & M3).
+    destruct (mat_lookup fixed (tb c) phs (scc s) (mc_get (smc s) phs) k) as [[cc' mc'] r]. simpl in *. subst r.
+    unfold read_mat. reflexivity.
+Qed.
+
+(* ------------------------------------------------------------------ reads are the listed entries *)
+Lemma names_targets_indices t l xs : names_targets t l = Some xs ->
+  indices t l = Ok xs /\ forallb hashable l = true.
+Proof.
+  revert xs; induction l as [|e r IH]; simpl; intros xs H.
+  - inversion H; auto.
+  - destruct e as [s| | | |]; try discriminate. simpl.
+    destruct (tget t s) as [x|]; try discriminate.
+    destruct (names_targets t r) as [ys|]; try discriminate.
+    inversion H; subst. destruct (IH ys eq_refl) as [I1 I2]. rewrite I1. simpl. auto.
+Qed.
+
+Lemma get_sparse_many d xs : get_sparse d (CMany xs) (kind_of_many xs) = Ok (VVec (map (tsum d) xs)).
+Proof. unfold kind_of_many. destruct (existsb is_grp xs) eqn:E; simpl; [reflexivity|]. rewrite E. reflexivity. Qed.
+
+Lemma classify_seq t l xs : names_targets t l = Some xs ->
+  classify_chem t (KTup l) = Ok (CMany xs, kind_of_many xs) /\ classify_chem t (KList l) = Ok (CMany xs, kind_of_many xs).
+Proof.
+  intros H. destruct (names_targets_indices t l xs H) as [I1 I2].
+  unfold classify_chem. simpl. rewrite I2. simpl. rewrite I1. simpl. auto.
+Qed.
+
+Lemma get_refines_chem_lemma t d k v : spec_chem t d k = Some v -> read_chem t d k = Ok v.
+Proof.
+  unfold read_chem. destruct k as [s| |l|l|n]; simpl; intros H; try discriminate.
+  - unfold classify_chem. simpl. destruct (tget t s) as [[i|l]|]; inversion H; subst; reflexivity.
+  - inversion H; subst. reflexivity.
+  - destruct (names_targets t l) as [xs|] eqn:E; inversion H; subst.
+    destruct (classify_seq t l xs E) as [C _]. rewrite C. simpl. apply get_sparse_many.
+  - destruct (names_targets t l) as [xs|] eqn:E; inversion H; subst.
+    destruct (classify_seq t l xs E) as [_ C]. rewrite C. simpl. apply get_sparse_many.
+Qed.
+
+(* ------------------------------------------------------------------ writes *)
+Lemma wr_length d i x : length (wr d i x) = length d.
+Proof. apply upd_length. Qed.
+
+Lemma wr_zip_length idx : forall d xs, length (wr_zip d idx xs) = length d.
+Proof.
+  induction idx as [|i r IH]; intros d [|x xs]; simpl; auto. rewrite IH. apply wr_length.
+Qed.
+
+Lemma wr_zip_other idx : forall d xs i, ~ In i idx -> nthq (wr_zip d idx xs) i = nthq d i.
+Proof.
+  induction idx as [|j r IH]; intros d [|x xs] i H; simpl; auto.
+  rewrite IH by (intros C; apply H; right; exact C).
+  apply nth_upd_other. intros E. apply H. left. exact E.
+Qed.
+
+Lemma wr_zip_same idx : forall d xs, NoDup idx -> length idx = length xs ->
+  Forall (fun i => (i < length d)%nat) idx -> map (nthq (wr_zip d idx xs)) idx = xs.
+Proof.
+  induction idx as [|j r IH]; intros d [|x xs] ND L F; simpl in *; try discriminate; auto.
+  inversion ND as [|? ? Hn ND']; subst. inversion F as [|? ? Fj F']; subst.
+  f_equal.
+  - rewrite wr_zip_other by exact Hn. apply nth_upd_same. exact Fj.
+  - apply IH; auto. rewrite wr_length. exact F'.
+Qed.
+
+Lemma wr_all_zip idx : forall d x, wr_all d idx x = wr_zip d idx (repeat x (length idx)).
+Proof. unfold wr_all. induction idx as [|i r IH]; intros d x; simpl; auto. Qed.
+
+Lemma qsum_vscale x c : qsum (vscale x c) == x * qsum c.
+Proof. induction c as [|y c IH]; simpl; [lra|]. unfold vscale in IH. rewrite IH. lra. Qed.
+
+(* a name: the written value is read back, nothing else moves *)
+Lemma set_get_name_lemma t cs d s i x d' e :
+  tget t s = Some (Pos i) -> (i < length d)%nat ->
+  classify_chem t (KStr s) = Ok (COne (Pos i), Some 0%nat) /\
+  (set_sparse cs d (COne (Pos i)) (Some 0%nat) (DNum x) (KStr s) = (d', e) ->
+   e = None /\ length d' = length d /\ get_sparse d' (COne (Pos i)) (Some 0%nat) = Ok (VNum x) /\
+   forall j, j <> i -> nthq d' j = nthq d j).
+Proof.
+  intros Ht Hi. split.
+  - unfold classify_chem. simpl. rewrite Ht. reflexivity.
+  - simpl. intros H. inversion H; subst. repeat split.
+    + apply wr_length.
+    + unfold wr. rewrite nth_upd_same by exact Hi. reflexivity.
+    + intros j Hj. apply nth_upd_other. congruence.
+Qed.
+
+(* a tuple/list of chemical names, vector data *)
+Lemma set_get_list_lemma cs d xs v k d' e :
+  existsb is_grp xs = false -> NoDup (poss xs) -> length (poss xs) = length v ->
+  Forall (fun i => (i < length d)%nat) (poss xs) ->
+  set_sparse cs d (CMany xs) (Some 3%nat) (DVec v) k = (d', e) ->
+  e = None /\ length d' = length d /\ map (nthq d') (poss xs) = v /\
+  forall j, ~ In j (poss xs) -> nthq d' j = nthq d j.
+Proof.
+  intros G ND L F H. simpl in H. rewrite G in H. inversion H; subst. repeat split.
+  - apply wr_zip_length.
+  - apply wr_zip_same; auto.
+  - intros j Hj. apply wr_zip_other. exact Hj.
+Qed.
+
+Lemma tsum_poss d xs : existsb is_grp xs = false -> map (tsum d) xs = map (nthq d) (poss xs).
+Proof.
+  induction xs as [|[i|l] r IH]; simpl; intros H; auto; try discriminate. f_equal. auto.
+Qed.
+
+(* ... scalar data is broadcast *)
+Lemma set_get_list_scalar_lemma cs d xs x k d' e :
+  existsb is_grp xs = false -> NoDup (poss xs) ->
+  Forall (fun i => (i < length d)%nat) (poss xs) ->
+  set_sparse cs d (CMany xs) (Some 3%nat) (DNum x) k = (d', e) ->
+  e = None /\ length d' = length d /\ map (nthq d') (poss xs) = repeat x (length (poss xs)) /\
+  forall j, ~ In j (poss xs) -> nthq d' j = nthq d j.
+Proof.
+  intros G ND F H. simpl in H. rewrite G in H. inversion H; subst. rewrite wr_all_zip. repeat split.
+  - apply wr_zip_length.
+  - apply wr_zip_same; auto. rewrite repeat_length. reflexivity.
+  - intros j Hj. apply wr_zip_other. exact Hj.
+Qed.
+
+(* a group, vector data: entries are stored as given, the group reads their sum *)
+Lemma set_get_group_vec_lemma cs d l v k d' e :
+  NoDup l -> length l = length v -> Forall (fun i => (i < length d)%nat) l ->
+  set_sparse cs d (COne (Grp l)) (Some 1%nat) (DVec v) k = (d', e) ->
+  e = None /\ length d' = length d /\ map (nthq d') l = v /\
+  get_sparse d' (COne (Grp l)) (Some 1%nat) = Ok (VNum (qsum v)) /\
+  forall j, ~ In j l -> nthq d' j = nthq d j.
+Proof.
+  intros ND L F H. simpl in H. inversion H; subst.
+  assert (M : map (nthq (wr_zip d l v)) l = v) by (apply wr_zip_same; auto).
+  repeat split.
+  - apply wr_zip_length.
+  - exact M.
+  - simpl. rewrite M. reflexivity.
+  - intros j Hj. apply wr_zip_other. exact Hj.
+Qed.
+
+(* a scalar written to a group is distributed by the group's composition *)
+Lemma group_scalar_lemma cs d l x s c d' e :
+  sassoc cs s = Some c -> NoDup l -> length l = length c -> Forall (fun i => (i < length d)%nat) l ->
+  set_sparse cs d (COne (Grp l)) (Some 1%nat) (DNum x) (KStr s) = (d', e) ->
+  e = None /\ length d' = length d /\
+  (forall j, (j < length l)%nat -> nthq d' (nth j l O) == x * nthq c j) /\
+  (exists y, get_sparse d' (COne (Grp l)) (Some 1%nat) = Ok (VNum y) /\ y == x * qsum c) /\
+  forall j, ~ In j l -> nthq d' j = nthq d j.
+Proof.
+  intros Hc ND L F H. unfold set_sparse, comp_of in H. change (@sassoc (list Q) cs s) with (@sassoc vec cs s) in Hc.
+  rewrite Hc in H. inversion H; subst.
+  assert (M : map (nthq (wr_zip d l (vscale x c))) l = vscale x c).
+  { apply wr_zip_same; auto. rewrite vscale_length. exact L. }
+  repeat split.
+  - apply wr_zip_length.
+  - intros j Hj.
+    set (D := wr_zip d l (vscale x c)) in *.
+    assert (E : nthq D (nth j l O) = nth j (map (nthq D) l) 0).
+    { rewrite (nth_indep _ 0 (nthq D O)) by (rewrite map_length; exact Hj). rewrite map_nth. reflexivity. }
+    rewrite E, M. apply nthq_vscale.
+  - eexists. split; [simpl; rewrite M; reflexivity|]. apply qsum_vscale.
+  - intros j Hj. apply wr_zip_other. exact Hj.
+Qed.
+
+(* the ellipsis: all data *)
+Lemma set_get_all_lemma cs d v k d' e :
+  length v = length d ->
+  set_sparse cs d CAll None (DVec v) k = (d', e) -> e = None /\ d' = v.
+Proof.
+  intros L H. simpl in H. inversion H; subst. split; auto.
+  rewrite <- L. clear L H. unfold vzero.
+  assert (A : forall (v pre : vec), wr_zip (pre ++ repeat 0 (length v)) (seq (length pre) (length v)) v = pre ++ v).
+  { induction v0 as [|x r IH]; intros pre.
+    - simpl. reflexivity.
+    - cbn [length repeat seq wr_zip]. unfold wr.
+      assert (U : upd (pre ++ 0 :: repeat 0 (length r)) (length pre) x = (pre ++ [x]) ++ repeat 0 (length r)).
+      { rewrite <- app_assoc. simpl. induction pre as [|a p IHp]; simpl; auto. f_equal. exact IHp. }
+      rewrite U.
+      assert (Ln : S (length pre) = length (pre ++ [x])) by (rewrite app_length; simpl; lia).
+      rewrite Ln. rewrite IH. rewrite <- app_assoc. reflexivity. }
+  exact (A v []).
+Qed.
+
+(* ------------------------------------------------------------------ every name of a chemical resolves to its position *)
+Lemma tget_tset t s x n : tget (tset t s x) n = if String.eqb n s then Some x else tget t n.
+Proof. reflexivity. Qed.
+
+Definition bindf (t : table) (ci : string * nat) : table := tset t (fst ci) (Pos (snd ci)).
+
+Lemma base_fold_unique l : forall t0 n i,
+  In (n, i) l -> (forall j, In (n, j) l -> j = i) -> tget (fold_left bindf l t0) n = Some (Pos i).
+Proof.
+  induction l as [|[m k] r IH]; intros t0 n i HI HU; simpl; [destruct HI|].
+  assert (DEC : forall a b : string * nat, {a = b} + {a <> b}).
+  { intros [a1 a2] [b1 b2]. destruct (string_dec a1 b1); [|right; congruence].
+    destruct (Nat.eq_dec a2 b2); [left; congruence|right; congruence]. }
+  destruct (in_dec DEC (n, i) r) as [Hr|Hr].
+  - apply IH; auto. intros j Hj. apply HU. right. exact Hj.
+  - destruct HI as [E|HI]; [|contradiction]. inversion E; subst m k.
+    assert (G : forall t1, tget t1 n = Some (Pos i) -> tget (fold_left bindf r t1) n = Some (Pos i)).
+    { clear IH Hr E. induction r as [|[m k] r IHr]; intros t1 H1; simpl; auto.
+      apply IHr.
+      - intros j Hj. apply HU. destruct Hj as [Hj|Hj]; [left; exact Hj|right; right; exact Hj].
+      - unfold bindf. simpl. rewrite tget_tset. destruct (String.eqb n m) eqn:Em; auto.
+        apply String.eqb_eq in Em. subst m. f_equal. f_equal. apply HU. right. left. reflexivity. }
+    apply G. unfold bindf. simpl. rewrite tget_tset, String.eqb_refl. reflexivity.
+Qed.
+
+Lemma in_enum_from {A} (xs : list A) : forall k x j, In (x, j) (enum_from k xs) <-> (k <= j)%nat /\ nth_error xs (j - k) = Some x.
+Proof.
+  induction xs as [|a r IH]; intros k x j; simpl.
+  - split; [intros []|]. intros [_ H]. destruct (j - k)%nat; discriminate.
+  - rewrite IH. split.
+    + intros [E|[L N]].
+      * inversion E; subst. replace (j - j)%nat with O by lia. simpl. auto.
+      * split; [lia|]. replace (j - k)%nat with (S (j - S k)) by lia. exact N.
+    + intros [L N]. destruct (Nat.eq_dec j k) as [E|E].
+      * subst. replace (k - k)%nat with O in N by lia. simpl in N. inversion N. left. reflexivity.
+      * right. split; [lia|]. replace (j - k)%nat with (S (j - S k)) in N by lia. exact N.
+Qed.
+
+Definition wf_chems (cs : list chem) : Prop :=
+  NoDup (map cid cs) /\ NoDup (map ccas cs) /\
+  forall i j a b, nth_error cs i = Some a -> nth_error cs j = Some b -> cid a = ccas b -> i = j.
+
+Lemma nodup_nth {A} (l : list A) i j x : NoDup l -> nth_error l i = Some x -> nth_error l j = Some x -> i = j.
+Proof.
+  intros ND Hi Hj. apply (proj1 (NoDup_nth_error l) ND); [apply nth_error_Some; congruence|congruence].
+Qed.
+
+Lemma base_table_names cs i ch : wf_chems cs -> nth_error cs i = Some ch ->
+  tget (base_table cs) (cid ch) = Some (Pos i) /\ tget (base_table cs) (ccas ch) = Some (Pos i).
+Proof.
+  intros (ND1 & ND2 & X) Hi. unfold base_table.
+  change (fun (t : table) (ci : string * nat) => tset t (fst ci) (Pos (snd ci))) with bindf.
+  assert (Hid : nth_error (map cid cs) i = Some (cid ch)) by (rewrite nth_error_map, Hi; reflexivity).
+  assert (Hcas : nth_error (map ccas cs) i = Some (ccas ch)) by (rewrite nth_error_map, Hi; reflexivity).
+  split; apply base_fold_unique.
+  - apply in_or_app. right. apply in_enum_from. split; [lia|]. rewrite Nat.sub_0_r. exact Hid.
+  - intros j Hj. apply in_app_or in Hj as [Hj|Hj]; apply in_enum_from in Hj as [_ Hj]; rewrite Nat.sub_0_r in Hj.
+    + rewrite nth_error_map in Hj. destruct (nth_error cs j) as [b|] eqn:Eb; simpl in Hj; [|discriminate].
+      inversion Hj. symmetry. apply (X i j ch b); auto.
+    + apply (nodup_nth _ j i _ ND1 Hj Hid).
+  - apply in_or_app. left. apply in_enum_from. split; [lia|]. rewrite Nat.sub_0_r. exact Hcas.
+  - intros j Hj. apply in_app_or in Hj as [Hj|Hj]; apply in_enum_from in Hj as [_ Hj]; rewrite Nat.sub_0_r in Hj.
+    + apply (nodup_nth _ j i _ ND2 Hj Hcas).
+    + rewrite nth_error_map in Hj. destruct (nth_error cs j) as [b|] eqn:Eb; simpl in Hj; [|discriminate].
+      inversion Hj. apply (X j i b ch); auto.
+Qed.
+
+Lemma target_eqb_eq a b : target_eqb a b = true -> a = b.
+Proof.
+  destruct a as [i|l], b as [j|m]; simpl; intros H; try discriminate.
+  - apply Nat.eqb_eq in H. congruence.
+  - f_equal. revert m H; induction l as [|x l IH]; intros [|y m] H; simpl in H; try discriminate; auto.
+    apply andb_true_iff in H as [H1 H2]. apply Nat.eqb_eq in H1. f_equal; auto.
+Qed.
+
+(* set_alias never rebinds a name to a different target *)
+Lemma set_alias_preserves t id a n x : tget t n = Some x -> tget (fst (set_alias t id a)) n = Some x.
+Proof.
+  intros H. unfold set_alias. destruct (tget t id) as [y|] eqn:Ey; simpl; auto.
+  destruct (tget t a) as [z|] eqn:Ez.
+  - destruct (target_eqb y z) eqn:E; simpl; auto.
+    apply target_eqb_eq in E. subst z. rewrite tget_tset. destruct (String.eqb n a) eqn:En; auto.
+    apply String.eqb_eq in En. subst. congruence.
+  - simpl. rewrite tget_tset. destruct (String.eqb n a) eqn:En; auto.
+    apply String.eqb_eq in En. subst. congruence.
+Qed.
+
+Lemma set_alias_binds t id a t' x : set_alias t id a = (t', None) -> tget t id = Some x -> tget t' a = Some x.
+Proof.
+  unfold set_alias. intros H Hx. rewrite Hx in H.
+  destruct (match tget t a with Some y => negb (target_eqb x y) | None => false end); inversion H; subst.
+  rewrite tget_tset, String.eqb_refl. reflexivity.
+Qed.
+
+Lemma set_aliases_spec id names : forall t t' x, set_aliases t id names = Ok t' -> tget t id = Some x ->
+  (forall n y, tget t n = Some y -> tget t' n = Some y) /\ (forall n, In n names -> tget t' n = Some x).
+Proof.
+  induction names as [|a r IH]; intros t t' x H Hx; simpl in H.
+  - inversion H; subst. split; auto. intros n [].
+  - destruct (set_alias t id a) as [t1 [e|]] eqn:E; [discriminate|].
+    pose proof (set_alias_binds t id a t1 x E Hx) as B.
+    assert (P : forall n y, tget t n = Some y -> tget t1 n = Some y).
+    { intros n y Hn. pose proof (set_alias_preserves t id a n y Hn) as Q. rewrite E in Q. exact Q. }
+    destruct (IH t1 t' x H (P _ _ Hx)) as [I1 I2]. split.
+    + intros n y Hn. apply I1. apply P. exact Hn.
+    + intros n [Hn|Hn]; [subst; apply I1; exact B|apply I2; exact Hn].
+Qed.
+
+Lemma compile_aliases_spec all : forall cs t t', compile_aliases all t cs = Ok t' ->
+  (forall n y, tget t n = Some y -> tget t' n = Some y) /\
+  (forall ch x n, In ch cs -> tget t (cid ch) = Some x ->
+     In n (filter (fun n => negb (repeated all n)) (cnames ch)) -> tget t' n = Some x).
+Proof.
+  induction cs as [|c r IH]; intros t t' H; simpl in H.
+  - inversion H; subst. split; auto. intros ch x n [].
+  - destruct (set_aliases t (cid c) (filter (fun n => negb (repeated all n)) (cnames c))) as [t1|e] eqn:E; simpl in H; [|discriminate].
+    destruct (IH t1 t' H) as [I1 I2].
+    assert (P : forall n y, tget t n = Some y -> tget t1 n = Some y).
+    { intros n y Hn. destruct (tget t (cid c)) as [x|] eqn:Ex.
+      - apply (proj1 (set_aliases_spec _ _ t t1 x E Ex)). exact Hn.
+      - (* the ID is always bound; without it set_aliases either does nothing or fails *)
+        destruct (filter (fun n0 => negb (repeated all n0)) (cnames c)) as [|a l]; simpl in E.
+        + inversion E; subst. exact Hn.
+        + unfold set_alias in E. rewrite Ex in E. discriminate. }
+    split.
+    + intros n y Hn. apply I1. apply P. exact Hn.
+    + intros ch x n [Hc|Hc] Hx Hn.
+      * subst ch. apply I1. apply (proj2 (set_aliases_spec _ _ t t1 x E Hx)). exact Hn.
+      * apply (I2 ch x n Hc); auto.
+Qed.
+
+Lemma names_single_compile cs c0 i ch n : wf_chems cs -> compile cs = Ok c0 ->
+  nth_error cs i = Some ch -> In n (chem_names cs ch) -> tget (tb c0) n = Some (Pos i).
+Proof.
+  intros W C Hi Hn. unfold compile in C.
+  destruct (compile_aliases cs (base_table cs) cs) as [t|e] eqn:E; simpl in C; [|discriminate].
+  inversion C; subst. simpl.
+  destruct (base_table_names cs i ch W Hi) as [B1 B2].
+  destruct (compile_aliases_spec cs cs _ _ E) as [P1 P2].
+  destruct Hn as [Hn|[Hn|Hn]]; subst.
+  - apply P1. exact B1.
+  - apply P1. exact B2.
+  - apply (P2 ch (Pos i) n); auto. apply nth_error_In with i. exact Hi.
+Qed.
+
+(* configuration calls keep them, provided no group takes the name *)
+Definition group_name (o : cop) : option string := match o with CGroup n _ _ _ => Some n | CAlias _ _ => None end.
+
+Lemma cstep_preserves c o n x : group_name o <> Some n -> tget (tb c) n = Some x ->
+  tget (tb (fst (cstep c o))) n = Some x.
+Proof.
+  intros G H. destruct o as [id a|g ids cp wt]; simpl.
+  - pose proof (set_alias_preserves (tb c) id a n x H) as P.
+    destruct (set_alias (tb c) id a) as [t e]. simpl in *. exact P.
+  - unfold define_group.
+    destruct (negb _); simpl; auto. destruct (existsb _ ids); simpl; auto.
+    destruct (indices (tb c) (map KStr ids)); simpl; auto.
+    rewrite tget_tset. destruct (String.eqb n g) eqn:E; auto.
+    apply String.eqb_eq in E. subst. simpl in G. congruence.
+Qed.
+
+Lemma cbuild_preserves ops : forall c n x, (forall o, In o ops -> group_name o <> Some n) ->
+  tget (tb c) n = Some x -> tget (tb (fst (cbuild c ops))) n = Some x.
+Proof.
+  induction ops as [|o r IH]; intros c n x G H; simpl; auto.
+  pose proof (cstep_preserves c o n x (G o (or_introl eq_refl)) H) as P.
+  destruct (cstep c o) as [c' e]. simpl in P.
+  specialize (IH c' n x (fun o' Ho => G o' (or_intror Ho)) P).
+  destruct (cbuild c' r) as [c'' es]. simpl in *. exact IH.
+Qed.
+
+Lemma alias_resolves c id a c' x : cstep c (CAlias id a) = (c', None) -> tget (tb c) id = Some x ->
+  tget (tb c') a = Some x.
+Proof.
+  simpl. intros H Hx. destruct (set_alias (tb c) id a) as [t e] eqn:E. inversion H; subst. simpl.
+  apply (set_alias_binds _ _ _ _ _ E Hx).
+Qed.
+
+(* ------------------------------------------------------------------ multi-phase reads *)
+Lemma names_hashable t l xs : names_targets t l = Some xs -> forallb hashable l = true /\ map conv_elem l = l.
+Proof.
+  revert xs; induction l as [|e r IH]; simpl; intros xs H; auto.
+  destruct e as [s| | | |]; try discriminate.
+  destruct (tget t s); try discriminate. destruct (names_targets t r) as [ys|]; try discriminate.
+  destruct (IH ys eq_refl) as [I1 I2]. simpl. rewrite I1, I2. auto.
+Qed.
+
+(* a valid chemical key, seen through the conversions of _get_index_data *)
+Lemma chem_key_conv t d c v : spec_chem t d c = Some v ->
+  exists ci kd, classify_chem t (conv_elem c) = Ok (ci, kd) /\ get_sparse d ci kd = Ok v /\
+                hashable (conv_elem c) = true /\
+                (kd = None -> c = KEll) /\
+                (forall s, conv_elem c = KStr s -> tget t s <> None).
+Proof.
+  destruct c as [s| |l|l|n]; simpl; intros H; try discriminate.
+  - destruct (tget t s) as [x|] eqn:E; inversion H; subst.
+    unfold classify_chem. simpl. rewrite E.
+    destruct x as [i|l]; do 2 eexists; repeat split; try reflexivity; try discriminate;
+      intros s0 Hs; inversion Hs; subst; congruence.
+  - inversion H; subst. do 2 eexists. repeat split; try reflexivity; discriminate.
+  - destruct (names_targets t l) as [xs|] eqn:E; inversion H; subst.
+    destruct (classify_seq t l xs E) as [C _]. destruct (names_hashable t l xs E) as [Hh _].
+    exists (CMany xs), (kind_of_many xs). repeat split; auto.
+    + apply get_sparse_many.
+    + unfold kind_of_many. destruct (existsb is_grp xs); discriminate.
+    + discriminate.
+  - destruct (names_targets t l) as [xs|] eqn:E; inversion H; subst.
+    destruct (classify_seq t l xs E) as [C _]. destruct (names_hashable t l xs E) as [Hh _].
+    exists (CMany xs), (kind_of_many xs). repeat split; auto.
+    + apply get_sparse_many.
+    + unfold kind_of_many. destruct (existsb is_grp xs); discriminate.
+    + discriminate.
+Qed.
+
+Lemma mat_key_chem t d k v : spec_chem t d k = Some v ->
+  exists k', mat_key k = Some k' /\ classify_chem t k' = classify_chem t k.
+Proof.
+  destruct k as [s| |l|l|n]; simpl; intros H; try discriminate.
+  - eexists; split; reflexivity.
+  - eexists; split; reflexivity.
+  - destruct (names_targets t l) as [xs|] eqn:E; try discriminate.
+    destruct (names_hashable t l xs E) as [Hh _]. unfold mat_key. simpl. rewrite Hh. eexists; split; reflexivity.
+  - destruct (names_targets t l) as [xs|] eqn:E; try discriminate.
+    destruct (names_hashable t l xs E) as [Hh Hc]. unfold mat_key. simpl. rewrite Hc, Hh. eexists; split; reflexivity.
+Qed.
+
+Lemma res_all_map {A B} (f : A -> res B) (g : A -> B) l : (forall a, f a = Ok (g a)) -> res_all (map f l) = Ok (map g l).
+Proof. intros H. induction l as [|a r IH]; simpl; auto. rewrite H, IH. reflexivity. Qed.
+
+Lemma stack_nums (l : list Q) : stack (map VNum l) = Ok (VVec l).
+Proof.
+  unfold stack. assert (A : all_nums (map VNum l) = Some l) by (induction l as [|x r IH]; simpl; [|rewrite IH]; auto).
+  rewrite A. reflexivity.
+Qed.
+Lemma all_vecs_map (r : list vec) : all_vecs (map VVec r) = Some r.
+Proof. induction r as [|y r IH]; simpl; [|rewrite IH]; auto. Qed.
+Lemma stack_vecs (l : list vec) : l <> [] -> stack (map VVec l) = Ok (VMat l).
+Proof.
+  intros NE. unfold stack. destruct l as [|x r]; [congruence|]. simpl.
+  rewrite all_vecs_map. reflexivity.
+Qed.
+
+Definition phase_of (phs : list string) (p0 : key) : res (option nat) :=
+  match p0 with
+  | KStr s => if len1 s then do p <- pcall phs s; Ok (Some p) else Err EKey
+  | KEll => Ok None
+  | _ => Err EIndex
+  end.
+
+Lemma phase_part_pure_pair t phs p0 ids :
+  phase_part_pure fixed t phs (KTup [p0; ids]) =
+  do pi <- phase_of phs p0;
+  do v <- classify_chem t ids;
+  Ok (match snd v with
+      | None => match pi with Some p => MPhase p | None => MNone end
+      | Some _ => MPair pi (fst v)
+      end, snd v).
+Proof.
+  unfold phase_part_pure, phase_part, phase_of.
+  destruct (match p0 with
+            | KStr s => if len1 s then do p <- pcall phs s; Ok (Some p) else Err EKey
+            | KEll => Ok None
+            | _ => Err EIndex
+            end) as [pi|e]; simpl; auto.
+  destruct (chem_lookup_spec t [] ids (ccoh_nil t)) as [_ CL].
+  destruct (chem_lookup t [] ids) as [cc0 r0]. simpl in *. subst r0.
+  destruct (classify_chem t ids) as [[ci [kn|]]|e]; simpl; auto.
+Qed.
+
+(* the pair forms: (phase, key) and (..., key), after conversion of list components *)
+Local Opaque get_sparse.
+Lemma pair_form t phs n rows p c v : rows <> [] ->
+  spec_pair t phs rows p c = Some v ->
+  (forall s, p = KStr s -> tget t s = None \/ forall s', conv_elem c <> KStr s') ->
+  (do m <- classify_mat_h fixed t phs (KTup [conv_elem p; conv_elem c]); mat_get n rows m) = Ok v.
+Proof.
+  intros NE H NC. unfold classify_mat_h.
+  destruct p as [s| | | |]; simpl in H; try discriminate.
+  - (* a phase letter *)
+    destruct (len1 s) eqn:L1; try discriminate.
+    destruct (pcall phs s) as [r|e] eqn:Pc; try discriminate.
+    destruct (chem_key_conv t _ c v H) as (ci & kd & C1 & C2 & C3 & C4 & C5).
+    assert (EK : classify_chem t (KTup [KStr s; conv_elem c]) = Err EKey).
+    { unfold classify_chem. simpl. rewrite C3. simpl.
+      destruct (tget t s) as [x|] eqn:Es; [|reflexivity].
+      destruct (NC s eq_refl) as [N|N]; [congruence|].
+      destruct (conv_elem c) as [s'| | | |] eqn:Ec; try reflexivity. exfalso. apply (N s'). reflexivity. }
+    simpl conv_elem. rewrite EK. rewrite phase_part_pure_pair. unfold phase_of. rewrite L1, Pc. simpl.
+    rewrite C1. simpl.
+    destruct kd as [kn|]; simpl.
+    + exact C2.
+    + rewrite (C4 eq_refl) in H. simpl in H. inversion H; subst. reflexivity.
+  - (* the ellipsis as phase *)
+    assert (EK : forall x, hashable x = true -> classify_chem t (KTup [KEll; x]) = Err EKey).
+    { intros x Hx. unfold classify_chem. simpl. rewrite Hx. reflexivity. }
+    destruct c as [s'| |l|l|k0]; simpl in H; try discriminate; simpl conv_elem.
+    + destruct (tget t s') as [x|] eqn:E; inversion H; subst.
+      rewrite EK by reflexivity. rewrite phase_part_pure_pair. simpl.
+      unfold classify_chem. simpl. rewrite E.
+      destruct x as [i|l]; simpl.
+      * rewrite (res_all_map _ (fun r => VNum (tsum r (Pos i)))) by (intros; reflexivity).
+        simpl. rewrite <- map_map with (g := VNum). apply stack_nums.
+      * rewrite (res_all_map _ (fun r => VNum (tsum r (Grp l)))) by (intros; reflexivity).
+        simpl. rewrite <- map_map with (g := VNum). apply stack_nums.
+    + inversion H; subst. rewrite EK by reflexivity. rewrite phase_part_pure_pair. simpl. reflexivity.
+    + destruct (names_targets t l) as [xs|] eqn:E; inversion H; subst.
+      destruct (classify_seq t l xs E) as [C _]. destruct (names_hashable t l xs E) as [Hh _].
+      rewrite EK by (simpl; exact Hh). rewrite phase_part_pure_pair. simpl. rewrite C. simpl.
+      assert (K : exists kn, kind_of_many xs = Some kn) by (unfold kind_of_many; destruct (existsb is_grp xs); eexists; reflexivity).
+      destruct K as [kn K]. rewrite K. simpl. rewrite <- K.
+      rewrite (res_all_map _ (fun r => VVec (map (tsum r) xs))) by (intros; apply get_sparse_many).
+      simpl. rewrite <- map_map with (g := VVec). apply stack_vecs.
+      destruct rows; [congruence|discriminate].
+    + destruct (names_targets t l) as [xs|] eqn:E; inversion H; subst.
+      destruct (classify_seq t l xs E) as [C _]. destruct (names_hashable t l xs E) as [Hh _].
+      rewrite EK by (simpl; exact Hh). rewrite phase_part_pure_pair. simpl. rewrite C. simpl.
+      assert (K : exists kn, kind_of_many xs = Some kn) by (unfold kind_of_many; destruct (existsb is_grp xs); eexists; reflexivity).
+      destruct K as [kn K]. rewrite K. simpl. rewrite <- K.
+      rewrite (res_all_map _ (fun r => VVec (map (tsum r) xs))) by (intros; apply get_sparse_many).
+      simpl. rewrite <- map_map with (g := VVec). apply stack_vecs.
+      destruct rows; [congruence|discriminate].
+Qed.
+Local Transparent get_sparse.
+
+
+Lemma conv_hashable x : hashable x = true -> conv_elem x = x.
+Proof. destruct x; simpl; auto; discriminate. Qed.
+
+Lemma spec_pair_hashable t phs rows p c v : spec_pair t phs rows p c = Some v ->
+  hashable (conv_elem p) = true /\ hashable (conv_elem c) = true.
+Proof.
+  destruct p as [s| | | |]; simpl; intros H; try discriminate.
+  - destruct (len1 s); try discriminate. destruct (pcall phs s); try discriminate.
+    destruct (chem_key_conv t _ c v H) as (ci & kd & _ & _ & C3 & _). auto.
+  - destruct c as [s'| |l|l|k0]; simpl in *; try discriminate; auto.
+    + destruct (names_targets t l) as [xs|] eqn:E; try discriminate. destruct (names_hashable t l xs E); auto.
+    + destruct (names_targets t l) as [xs|] eqn:E; try discriminate. destruct (names_hashable t l xs E); auto.
+Qed.
+
+Lemma mat_key_pair p c : hashable (conv_elem p) = true -> hashable (conv_elem c) = true ->
+  mat_key (KTup [p; c]) = Some (KTup [conv_elem p; conv_elem c]) /\
+  mat_key (KList [p; c]) = Some (KTup [conv_elem p; conv_elem c]).
+Proof.
+  intros Hp Hc. unfold mat_key. simpl. rewrite Hp, Hc. simpl. split; auto.
+  destruct (hashable p) eqn:E1; simpl; auto. destruct (hashable c) eqn:E2; simpl; auto.
+  rewrite (conv_hashable p E1), (conv_hashable c E2). reflexivity.
+Qed.
+
+Lemma pair_not_chem t rows phs p c v :
+  names_targets t [p; c] = None -> spec_pair t phs rows p c = Some v ->
+  forall s, p = KStr s -> tget t s = None \/ forall s', conv_elem c <> KStr s'.
+Proof.
+  intros N H s Hp. subst p. destruct (tget t s) as [x|] eqn:Es; [right|left; reflexivity].
+  intros s' Hc. destruct c as [s0| | | |]; simpl in Hc; try discriminate. inversion Hc; subst s0.
+  simpl in H. destruct (len1 s); try discriminate. destruct (pcall phs s); try discriminate.
+  simpl in H. simpl in N. rewrite Es in N. destruct (tget t s'); discriminate.
+Qed.
+
+Lemma get_refines_mat_lemma t phs n rows k v : rows <> [] ->
+  spec_mat t phs n rows k = Some v -> read_mat fixed t n phs rows k = Ok v.
+Proof.
+  intros NE H. unfold spec_mat in H. unfold read_mat, classify_mat.
+  destruct (spec_chem t (colsum n rows) k) as [v0|] eqn:S.
+  - inversion H; subst v0.
+    destruct (mat_key_chem t _ k v S) as (k' & K1 & K2). rewrite K1. unfold classify_mat_h. rewrite K2.
+    pose proof (get_refines_chem_lemma t _ k v S) as R. unfold read_chem in R.
+    destruct (classify_chem t k) as [[ci kd]|e]; simpl in *; [exact R|discriminate].
+  - destruct k as [s| |l|l|k0]; try discriminate.
+    + destruct (len1 s) eqn:L1; try discriminate. destruct (pcall phs s) as [r|e] eqn:Pc; try discriminate.
+      inversion H; subst. simpl in S. destruct (tget t s) eqn:Es; try discriminate.
+      unfold mat_key. simpl. unfold classify_mat_h, classify_chem. simpl. rewrite Es.
+      unfold phase_part_pure. simpl. rewrite L1, Pc. reflexivity.
+    + destruct l as [|p [|c [|x y]]]; try discriminate.
+      destruct (spec_pair_hashable _ _ _ _ _ _ H) as [Hp Hc].
+      destruct (mat_key_pair p c Hp Hc) as [M _]. rewrite M.
+      apply pair_form; auto. unfold spec_chem in S.
+      apply (pair_not_chem t rows phs p c v); auto.
+      destruct (names_targets t [p; c]); [discriminate S|reflexivity].
+    + destruct l as [|p [|c [|x y]]]; try discriminate.
+      destruct (spec_pair_hashable _ _ _ _ _ _ H) as [Hp Hc].
+      destruct (mat_key_pair p c Hp Hc) as [_ M]. rewrite M.
+      apply pair_form; auto. unfold spec_chem in S.
+      apply (pair_not_chem t rows phs p c v); auto.
+      destruct (names_targets t [p; c]); [discriminate S|reflexivity].
+Qed.
+
+(* phase-qualified writes touch one row only *)
+Lemma mat_set_row cs rows p ci kd dt k rows' e :
+  mat_set cs rows (MPair (Some p) ci, Some kd, false) dt k = (rows', e) ->
+  rows' = upd rows p (fst (set_sparse cs (nth p rows []) ci (Some kd) dt (second k))) /\
+  e = snd (set_sparse cs (nth p rows []) ci (Some kd) dt (second k)).
+Proof.
+  unfold mat_set. destruct (set_sparse cs (nth p rows []) ci (Some kd) dt (second k)) as [r e0].
+  unfold upd_row. intros H. inversion H; subst. auto.
+Qed.
+
+Lemma upd_rows_other (rows : list vec) p r q : q <> p -> nth q (upd rows p r) [] = nth q rows [].
+Proof.
+  revert p q; induction rows as [|a l IH]; intros [|p] [|q] H; simpl; auto; try congruence.
+Qed.
+
+(* ------------------------------------------------------------------ reads and writes after any history *)
+Definition after (c : cfg) (ixs : list ixr) (hist : list op) : state := fst (run fixed c (mkst [] [] ixs) hist).
+
+Lemma after_coh c ixs hist : coh c (after c ixs hist).
+Proof. apply run_coh. apply coh_init. Qed.
+
+Lemma read_after_history c ixs hist i k :
+  snd (step fixed c (after c ixs hist) (OGet i k)) =
+  match nth_error (sixs (after c ixs hist)) i with
+  | Some (IC d) => obs_of_read (read_chem (tb c) d k)
+  | Some (IM phs rows) => obs_of_read (read_mat fixed (tb c) (nchem c) phs rows k)
+  | None => BErr EOther
+  end.
+Proof. apply read_history_independent. apply after_coh. Qed.
+
+(* what a write through a chemical indexer does, from the table alone *)
+Definition write_chem (c : cfg) (d : vec) (k : key) (dt : data) : vec * option err :=
+  match classify_chem (tb c) k with
+  | Ok (ci, kd) => set_sparse (comps c) d ci kd dt k
+  | Err e => (d, Some e)
+  end.
+Definition write_mat (c : cfg) (phs : list string) (rows : list vec) (k : key) (dt : data) : list vec * option err :=
+  match classify_mat fixed (tb c) phs k with
+  | Ok v => mat_set (comps c) rows v dt k
+  | Err e => (rows, Some e)
+  end.
+
+Lemma write_after_history c ixs hist i k dt :
+  snd (step fixed c (after c ixs hist) (OSet i k dt)) =
+  match nth_error (sixs (after c ixs hist)) i with
+  | Some (IC d) => let (d', e) := write_chem c d k dt in BWr e [d']
+  | Some (IM phs rows) => let (r', e) := write_mat c phs rows k dt in BWr e r'
+  | None => BErr EOther
+  end.
+Proof.
+  destruct (after_coh c ixs hist) as [Hc Hm]. set (s := after c ixs hist) in *. simpl.
+  destruct (nth_error (sixs s) i) as [[d|phs rows]|]; simpl; auto.
+  - destruct (chem_lookup_spec (tb c) (scc s) k Hc) as [_ C2].
+    destruct (chem_lookup (tb c) (scc s) k) as [cc' r]. simpl in *. subst r.
+    unfold write_chem. destruct (classify_chem (tb c) k) as [[ci kd]|e]; simpl; auto.
+    destruct (set_sparse (comps c) d ci kd dt k). reflexivity.
+  - destruct (mat_lookup_spec (tb c) phs (scc s) (mc_get (smc s) phs) k Hc (Hm phs)) as (_ & _ & M3).
+    destruct (mat_lookup fixed (tb c) phs (scc s) (mc_get (smc s) phs) k) as [[cc' mc'] r]. simpl in *. subst r.
+    unfold write_mat. destruct (classify_mat fixed (tb c) phs k) as [v|e]; simpl; auto.
+    destruct (mat_set (comps c) rows v dt k). reflexivity.
+Qed.
+(* ------------------------------------------------------------------ a tuple mixing chemicals and groups *)
+Inductive nested_ok (cs : list (string * vec)) : list target -> list key -> Prop :=
+| nok_nil el : nested_ok cs [] el
+| nok_pos i ts e el : nested_ok cs ts el -> nested_ok cs (Pos i :: ts) (e :: el)
+| nok_grp l ts e el c : comp_of cs e = Some c -> length c = length l -> qsum c == 1 ->
+    nested_ok cs ts el -> nested_ok cs (Grp l :: ts) (e :: el).
+
+Lemma nodup_app_parts {A} (l r : list A) : NoDup (l ++ r) ->
+  NoDup l /\ NoDup r /\ forall i, In i l -> ~ In i r.
+Proof.
+  induction l as [|a l IH]; simpl; intros H.
+  - repeat split; auto. constructor.
+  - inversion H as [|? ? Hn H']; subst. destruct (IH H') as (I1 & I2 & I3). repeat split; auto.
+    + constructor; auto. intros C. apply Hn. apply in_or_app. left. exact C.
+    + intros i [E|Hi]; [subst; intros C; apply Hn; apply in_or_app; right; exact C|apply I3; exact Hi].
+Qed.
+
+Lemma set_nested_vec_spec cs ts el : nested_ok cs ts el -> forall v d,
+  length v = length ts -> NoDup (flat_targets ts) ->
+  Forall (fun i => (i < length d)%nat) (flat_targets ts) ->
+  exists d', set_nested_vec cs d ts el v = (d', None) /\ length d' = length d /\
+    (forall j, ~ In j (flat_targets ts) -> nthq d' j = nthq d j) /\
+    Forall2 (fun t x => tsum d' t == x) ts v.
+Proof.
+  induction 1 as [el|i ts e el Hok IH|l ts e el c Hc Lc Sc Hok IH]; intros v d L ND F.
+  - destruct v; [|discriminate]. exists d. simpl. repeat split; auto.
+  - destruct v as [|x v]; [discriminate|]. simpl in *. inversion ND as [|? ? Hn ND']; subst.
+    inversion F as [|? ? Fi F']; subst.
+    destruct (IH v (wr d i x)) as (d' & S & Ld & Fr & R); auto.
+    { rewrite wr_length. exact F'. }
+    exists d'. rewrite S. repeat split; auto.
+    + rewrite Ld. apply wr_length.
+    + intros j Hj. rewrite Fr by (intros C; apply Hj; right; exact C).
+      apply nth_upd_other. intros E. apply Hj. left. exact E.
+    + constructor; auto. simpl. rewrite Fr by exact Hn. unfold wr. rewrite nth_upd_same by exact Fi. reflexivity.
+  - destruct v as [|x v]; [discriminate|]. simpl in *. rewrite Hc.
+    destruct (nodup_app_parts _ _ ND) as (N1 & N2 & N3).
+    apply Forall_app in F as [F1 F2].
+    destruct (IH v (wr_zip d l (vscale x c))) as (d' & S & Ld & Fr & R); auto.
+    { rewrite wr_zip_length. exact F2. }
+    exists d'. rewrite S. repeat split; auto.
+    + rewrite Ld. apply wr_zip_length.
+    + intros j Hj. rewrite Fr by (intros C; apply Hj; apply in_or_app; right; exact C).
+      apply wr_zip_other. intros C. apply Hj. apply in_or_app. left. exact C.
+    + constructor; auto. simpl.
+      assert (M : map (nthq d') l = vscale x c).
+      { rewrite <- (wr_zip_same l d (vscale x c)); auto.
+        - apply map_ext_in. intros a Ha. apply Fr. apply N3. exact Ha.
+        - rewrite vscale_length. congruence. }
+      rewrite M. rewrite qsum_vscale. rewrite Sc. lra.
+Qed.
+
+Lemma set_get_nested_lemma cs d ts v k d' e :
+  nested_ok cs ts (key_elems k) -> length v = length ts -> NoDup (flat_targets ts) ->
+  Forall (fun i => (i < length d)%nat) (flat_targets ts) ->
+  set_sparse cs d (CMany ts) (Some 2%nat) (DVec v) k = (d', e) ->
+  e = None /\ length d' = length d /\
+  (exists w, get_sparse d' (CMany ts) (Some 2%nat) = Ok (VVec w) /\ Forall2 Qeq w v) /\
+  forall j, ~ In j (flat_targets ts) -> nthq d' j = nthq d j.
+Proof.
+  intros Hok L ND F H. simpl in H.
+  destruct (set_nested_vec_spec cs ts _ Hok v d L ND F) as (d1 & S & Ld & Fr & R).
+  rewrite S in H. inversion H; subst. repeat split; auto.
+  exists (map (tsum d') ts). split; [reflexivity|].
+  clear -R. induction R; simpl; constructor; auto.
+Qed.
